@@ -38,10 +38,10 @@ def configs(tier):
     ]
     for name, procs, jobs, script, pk in base:
         big = len(jobs) >= 2 and procs >= 2
-        b = (1 if not T else 2)
+        b = (2 if not T else 3)
         out.append((dict(name=name, procs=procs, jobs=jobs, script=script,
                          pool=pk, oracle='c07'), b,
-                    4000 if not T else 60000))
+                    20000 if not T else 60000))
     for name, procs, jobs, script in (
             ('nothreads/2proc/2jobs', 2, J2,
              S(2) + ['pump:3', 'close', 'join', 'late_submit']),
@@ -50,28 +50,28 @@ def configs(tier):
             ('nothreads/2proc/map', 2, JM, ['pump:1', 'close', 'join'])):
         out.append((dict(name=name, procs=procs, jobs=jobs, script=script,
                          pool={}, oracle='c07', threads=False),
-                    1 if not T else 2, 4000 if not T else 60000))
+                    2 if not T else 3, 20000 if not T else 60000))
     out.append((dict(name='2proc/second-thread-submits', procs=2, jobs=J1,
                      script=S(1) + ['close', 'join'], pool={}, oracle='c07',
-                     second=True), 1 if not T else 2, 4000 if not T else 60000))
+                     second=True), 2 if not T else 3, 20000 if not T else 60000))
     out.append((dict(name='2proc/empty-imap', procs=2,
                      jobs=[('imap', 'tenfold', [])] + J1,
                      script=S(2) + ['close', 'join'], pool={}, oracle='c07'),
-                1 if not T else 2, 4000 if not T else 60000))
+                2 if not T else 3, 20000 if not T else 60000))
     out.append((dict(name='nothreads/hard-limit-during-drain', procs=1,
                      jobs=[('apply', 'sleepy', 3600.0)],
                      script=S(1) + ['pump:1', 'close', 'join'],
                      pool=dict(timeout=1.5), oracle='c07', threads=False,
-                     horizon=120.0), 1 if not T else 2,
-                4000 if not T else 60000))
+                     horizon=120.0), 2 if not T else 3,
+                20000 if not T else 60000))
     # a worker replaced while the pool runs, then a job done by the
     # replacement, then the drain (the replacement's bookkeeping must be as
     # good as an original worker's)
     out.append((dict(name='1proc/replaced-worker', procs=1, jobs=J2,
                      script=['submit:0', 'wait:0', 'killworker:0', 'rounds:1',
                              'submit:1', 'wait:1', 'close', 'join'],
-                     pool={}, oracle='c07'), 1 if not T else 2,
-                4000 if not T else 60000))
+                     pool={}, oracle='c07'), 2 if not T else 3,
+                20000 if not T else 60000))
     # close() landing inside a supervision round that has several workers
     # to start
     out.append((dict(name='1proc/grow2-vs-close', procs=1, jobs=J1,
